@@ -56,7 +56,7 @@ def _do_op(sim, rng, log):
                 note(["about-to-step", k, sim.integrator, sim.N])
                 sim.steps(k)
                 log.append(["steps", k])
-            elif r < 0.42:
+            elif r < 0.42 and sim.N_var == 0:   # real particles are added before variational ones (documented order)
                 sim.add(m=10 ** rng.uniform(-7, -4), a=3.0 + rng.random() * 4 + sim.N, e=rng.random() * 0.05, f=rng.random() * 6, primary=sim.particles[0] if sim.N > 0 else None) if sim.N > 0 else sim.add(m=1.0)
                 log.append(["add"])
             elif r < 0.52 and sim.N > 1 and sim.N_var == 0:
@@ -71,7 +71,9 @@ def _do_op(sim, rng, log):
                     sim.add(m=1e-4, a=1.3)
                     log.append(["readd"])
             elif r < 0.70:
-                name = rng.choice(INTEGRATORS)
+                # (with variational particles only integrators whose gravity routine implements the variational
+                #  equations are in contract: MERCURIUS / TRACE gravity terminates the process otherwise)
+                name = rng.choice(INTEGRATORS if sim.N_var == 0 else ["whfast", "ias15", "bs", "leapfrog"])
                 sim.integrator = name
                 log.append(["integrator", name])
             elif r < 0.78:
